@@ -17,6 +17,9 @@ type frameRangeT struct{ arr, lo, n Term }
 
 func (a *Activation) allocsByName(name string) []*ssa.Alloc {
 	want := name
+	if name == "rangeint_iter" {
+		want = "rangeint.iter" // hidden counter of `for range n`
+	}
 	ordinal := 0
 	if i := strings.Index(name, "#"); i > 0 {
 		want = name[:i]
@@ -90,6 +93,30 @@ func (a *Activation) localByName(st *State, name string) (SVal, bool) {
 	return SVal{}, false
 }
 
+// freeVarByName reads a captured variable of the closure under verification.
+func (a *Activation) freeVarByName(st *State, name string) (SVal, bool) {
+	g := a.g
+	for _, fv := range a.fn.FreeVars {
+		if fv.Name() != name {
+			continue
+		}
+		v, ok := a.env[fv]
+		if !ok {
+			return SVal{}, false
+		}
+		elemT := fv.Type().(*types.Pointer).Elem()
+		if v.Cell != nil {
+			if cv, ok := st.cells[*v.Cell]; ok {
+				return SVal{T: cv.T, Ty: elemT}, true
+			}
+			return SVal{}, false
+		}
+		loc := v.T
+		return SVal{T: g.load(st, loc, elemT), Ty: elemT, Loc: &loc, Dyn: true}, true
+	}
+	return SVal{}, false
+}
+
 func (a *Activation) pkg() *packages.Package {
 	if a.fn.Pkg == nil {
 		return nil
@@ -105,6 +132,9 @@ func (a *Activation) specCtx(st *State, where string, withLocals bool) *SpecCtx 
 	}
 	if withLocals {
 		c.act = a
+	}
+	if len(a.fn.FreeVars) > 0 {
+		c.fvAct = a
 	}
 	return c
 }
@@ -333,6 +363,24 @@ func (a *Activation) modCall(cc *ssa.CallCommon, cm map[cellKey]bool, hm map[str
 		*all = true
 		return
 	}
+	if callee.Pkg != nil {
+		pp := callee.Pkg.Pkg.Path()
+		if pp == "go.etcd.io/raft/v3/raftpb" || strings.HasPrefix(pp, "google.golang.org/protobuf") || strings.HasPrefix(pp, modPath+"/pb") {
+			switch callee.Name() {
+			case "Unmarshal":
+				if callee.Signature.Recv() != nil {
+					if pt, ok := callee.Signature.Recv().Type().Underlying().(*types.Pointer); ok {
+						g.leafSorts(pt.Elem(), hm)
+						return
+					}
+				}
+			case "Marshal", "Size", "String", "GetKey", "GetValue", "ProtoReflect":
+				if callee.Signature.Recv() != nil {
+					return
+				}
+			}
+		}
+	}
 	if eff, ok := stdlibEffects(callee); ok {
 		for _, s := range eff {
 			hm[s] = true
@@ -351,8 +399,10 @@ func (a *Activation) modCall(cc *ssa.CallCommon, cm map[cellKey]bool, hm map[str
 			if len(spec.Modifies) == 0 {
 				return
 			}
-			// specific locations: conservatively havoc all heap sorts (types unknown without evaluation)
-			*all = true
+			// specific locations: derive the heap sorts from the declared types where possible
+			if !a.modSortsOfSpec(callee, spec, hm) {
+				*all = true
+			}
 			return
 		}
 		*all = true
@@ -365,6 +415,79 @@ func (a *Activation) modCall(cc *ssa.CallCommon, cm map[cellKey]bool, hm map[str
 		return
 	}
 	*all = true
+}
+
+// modSortsOfSpec adds the heap sorts a contract's modifies clause can touch; false if unknown.
+func (a *Activation) modSortsOfSpec(callee *ssa.Function, spec *FuncSpec, hm map[string]bool) bool {
+	g := a.g
+	typeOfName := func(name string) types.Type {
+		for _, fv := range callee.FreeVars {
+			if fv.Name() == name {
+				return fv.Type().(*types.Pointer).Elem()
+			}
+		}
+		for _, p := range callee.Params {
+			if p.Name() == name {
+				return p.Type()
+			}
+		}
+		return nil
+	}
+	for _, m := range spec.Modifies {
+		switch e := m.(type) {
+		case *EIdent:
+			t := typeOfName(e.Name)
+			if t == nil {
+				return false
+			}
+			g.leafSorts(t, hm)
+		case *EUnary:
+			id, ok := e.X.(*EIdent)
+			if e.Op != "*" || !ok {
+				return false
+			}
+			t := typeOfName(id.Name)
+			if t == nil {
+				return false
+			}
+			pt, ok := t.Underlying().(*types.Pointer)
+			if !ok {
+				return false
+			}
+			g.leafSorts(pt.Elem(), hm)
+		case *ECall:
+			id, ok := e.Fun.(*EIdent)
+			if !ok || (id.Name != "bytes" && id.Name != "elems") {
+				return false
+			}
+			hm[bvSort(8)] = true
+		case *ESel:
+			// x.f with x a parameter/free variable of (pointer to) struct type
+			id, ok := e.X.(*EIdent)
+			if !ok {
+				return false
+			}
+			t := typeOfName(id.Name)
+			if t == nil {
+				return false
+			}
+			if pt, ok := t.Underlying().(*types.Pointer); ok {
+				t = pt.Elem()
+			}
+			st, ok := t.Underlying().(*types.Struct)
+			if !ok {
+				return false
+			}
+			idx, ft, _ := findField(st, e.Name)
+			if idx < 0 {
+				return false
+			}
+			g.leafSorts(ft, hm)
+		default:
+			return false
+		}
+	}
+	return true
 }
 
 func (a *Activation) modInstrsCallee(fn *ssa.Function, instrs []ssa.Instruction, cm map[cellKey]bool, hm map[string]bool, all *bool, depth int) {
@@ -550,7 +673,7 @@ func (a *Activation) contractCall(st *State, callee *ssa.Function, spec *FuncSpe
 				vars[fv.Name()] = SVal{T: st.cells[*b.Cell].T, Ty: elemT}
 			} else {
 				loc := b.T
-				vars[fv.Name()] = SVal{T: g.load(st, loc, elemT), Ty: elemT, Loc: &loc}
+				vars[fv.Name()] = SVal{T: g.load(st, loc, elemT), Ty: elemT, Loc: &loc, Dyn: true}
 			}
 		}
 	}
